@@ -1,3 +1,504 @@
 package main
 
-func (eng *Engine) replayModel(prop string, o *Obligation, rep map[string]any) {}
+import (
+	"encoding/json"
+	"fmt"
+	"go/types"
+	"math/big"
+	"os"
+	"os/exec"
+	"path/filepath"
+	"regexp"
+	"strings"
+	"time"
+
+	"golang.org/x/tools/go/ssa"
+)
+
+// Counterexample replay.
+//
+// A failed obligation of a panic-freedom kind (bounds, slice, nil, div0,
+// make-neg, typeassert, panic, overflow in a nowrap function whose wrapped
+// value then indexes out of range, ...) claims "there is an input on which the
+// real function panics". The replayer asks the solver for the values of the
+// function's parameters in its model (quantifier-free relaxation of the query
+// when the full query was not decided), writes an in-package Go test that
+// builds exactly those inputs, calls the real function under recover, and runs
+// it with `go test -overlay` (nothing is written into /repo). The violation is
+// reported as replayed only if the real code panics.
+
+var panicKinds = map[string]bool{"bounds": true, "slice": true, "nil": true, "div0": true, "make-neg": true, "typeassert": true, "panic": true, "overflow": true, "pre": true}
+
+const replayMaxLen = 1 << 16
+
+type rvalue struct {
+	expr  string   // Go expression building the value (may reference earlier setup variables)
+	setup []string // statements to run before
+}
+
+type replayBuilder struct {
+	eng    *Engine
+	fc     *FnCtx
+	o      *Obligation
+	file   string // query file without the trailing get-model
+	nvar   int
+	solver string
+	imports map[string]bool
+}
+
+func (rb *replayBuilder) fresh() string {
+	rb.nvar++
+	return fmt.Sprintf("v%d", rb.nvar)
+}
+
+// values evaluates SMT terms in the model of the (relaxed) query.
+func (rb *replayBuilder) values(terms []Term) (map[Term]string, error) {
+	out := map[Term]string{}
+	if len(terms) == 0 {
+		return out, nil
+	}
+	q := rb.o.queryRelaxed() + "(check-sat)\n"
+	for _, t := range terms {
+		q += "(get-value (" + t + "))\n"
+	}
+	f := rb.file + ".vals.smt2"
+	os.WriteFile(f, []byte(q), 0o644)
+	defer os.Remove(f)
+	cmd := exec.Command("z3-new", "-T:20", f)
+	b, _ := cmd.CombinedOutput()
+	lines := strings.Split(strings.TrimSpace(string(b)), "\n")
+	if len(lines) == 0 || strings.TrimSpace(lines[0]) != "sat" {
+		return nil, fmt.Errorf("relaxed query not sat: %s", firstLine(string(b)))
+	}
+	text := strings.Join(lines[1:], "\n")
+	// each answer is ((term value)); answers come in order
+	answers := splitSexprs(text)
+	if len(answers) < len(terms) {
+		return nil, fmt.Errorf("solver returned %d values for %d terms", len(answers), len(terms))
+	}
+	for i, t := range terms {
+		a := strings.TrimSpace(answers[i])
+		// strip the outer (( and ))
+		a = strings.TrimSuffix(strings.TrimPrefix(a, "(("), "))")
+		// the value is what follows the term text; terms may be printed differently, so take the last s-expression
+		parts := splitSexprs(a)
+		if len(parts) == 0 {
+			return nil, fmt.Errorf("cannot parse value for %s", t)
+		}
+		out[t] = strings.TrimSpace(parts[len(parts)-1])
+	}
+	return out, nil
+}
+
+func firstLine(s string) string {
+	if i := strings.Index(s, "\n"); i >= 0 {
+		return s[:i]
+	}
+	return s
+}
+
+// splitSexprs splits a string into top-level s-expressions / atoms.
+func splitSexprs(s string) []string {
+	var out []string
+	depth, start := 0, -1
+	inq := false
+	for i := 0; i < len(s); i++ {
+		c := s[i]
+		if c == '|' {
+			inq = !inq
+			if start < 0 {
+				start = i
+			}
+			continue
+		}
+		if inq {
+			continue
+		}
+		switch {
+		case c == '(':
+			if depth == 0 && start < 0 {
+				start = i
+			}
+			depth++
+		case c == ')':
+			depth--
+			if depth == 0 && start >= 0 {
+				out = append(out, s[start:i+1])
+				start = -1
+			}
+		case c == ' ' || c == '\n' || c == '\t':
+			if depth == 0 && start >= 0 {
+				out = append(out, s[start:i])
+				start = -1
+			}
+		default:
+			if start < 0 {
+				start = i
+			}
+		}
+	}
+	if start >= 0 {
+		out = append(out, s[start:])
+	}
+	return out
+}
+
+var negRe = regexp.MustCompile(`^\(-\s*([0-9]+)\)$`)
+
+func smtInt(v string) (*big.Int, bool) {
+	v = strings.TrimSpace(v)
+	if m := negRe.FindStringSubmatch(v); m != nil {
+		b, ok := new(big.Int).SetString(m[1], 10)
+		if ok {
+			b.Neg(b)
+		}
+		return b, ok
+	}
+	return new(big.Int).SetString(v, 10)
+}
+
+func (rb *replayBuilder) intOf(t Term) (*big.Int, error) {
+	m, err := rb.values([]Term{t})
+	if err != nil {
+		return nil, err
+	}
+	b, ok := smtInt(m[t])
+	if !ok {
+		return nil, fmt.Errorf("non-integer model value %q for %s", m[t], t)
+	}
+	return b, nil
+}
+
+func (rb *replayBuilder) intsOf(ts []Term) ([]*big.Int, error) {
+	m, err := rb.values(ts)
+	if err != nil {
+		return nil, err
+	}
+	out := make([]*big.Int, len(ts))
+	for i, t := range ts {
+		b, ok := smtInt(m[t])
+		if !ok {
+			return nil, fmt.Errorf("non-integer model value %q for %s", m[t], t)
+		}
+		out[i] = b
+	}
+	return out, nil
+}
+
+func byteLit(bs []*big.Int) string {
+	var sb strings.Builder
+	sb.WriteString("[]byte{")
+	for i, b := range bs {
+		if i > 0 {
+			sb.WriteString(", ")
+		}
+		fmt.Fprintf(&sb, "%d", new(big.Int).And(b, big.NewInt(255)).Int64())
+	}
+	sb.WriteString("}")
+	return sb.String()
+}
+
+func (rb *replayBuilder) qual(T types.Type) string {
+	pkg := rb.fc.fn.Pkg
+	if pkg == nil && rb.fc.fn.Parent() != nil {
+		pkg = rb.fc.fn.Parent().Pkg
+	}
+	return types.TypeString(T, func(p *types.Package) string {
+		if pkg != nil && p == pkg.Pkg {
+			return ""
+		}
+		if rb.imports == nil {
+			rb.imports = map[string]bool{}
+		}
+		rb.imports[p.Path()] = true
+		return p.Name()
+	})
+}
+
+// build returns Go source for a value equal to v (as seen in the pre-state) in the model.
+func (rb *replayBuilder) build(v Val, T types.Type, depth int) (string, []string, error) {
+	if depth > 4 {
+		return "", nil, fmt.Errorf("value nested too deeply")
+	}
+	st := rb.fc.old
+	vc := rb.fc.vc
+	switch u := T.Underlying().(type) {
+	case *types.Basic:
+		switch {
+		case u.Info()&types.IsBoolean != 0:
+			m, err := rb.values([]Term{v.S})
+			if err != nil {
+				return "", nil, err
+			}
+			return fmt.Sprintf("%s(%s)", rb.qual(T), m[v.S]), nil, nil
+		case u.Info()&types.IsInteger != 0:
+			b, err := rb.intOf(v.S)
+			if err != nil {
+				return "", nil, err
+			}
+			return fmt.Sprintf("%s(%s)", rb.qual(T), b.String()), nil, nil
+		case u.Info()&types.IsString != 0:
+			n, err := rb.intOf(app("slen", v.S))
+			if err != nil {
+				return "", nil, err
+			}
+			if n.Sign() < 0 || n.Cmp(big.NewInt(replayMaxLen)) > 0 {
+				return "", nil, fmt.Errorf("model string length %s outside replayable range", n)
+			}
+			var ts []Term
+			for i := int64(0); i < n.Int64(); i++ {
+				ts = append(ts, app("sat", v.S, itoa(i)))
+			}
+			bs, err := rb.intsOf(ts)
+			if err != nil {
+				return "", nil, err
+			}
+			return fmt.Sprintf("%s(%s)", rb.qual(T), byteLit(bs)), nil, nil
+		}
+	case *types.Slice:
+		eb, ok := u.Elem().Underlying().(*types.Basic)
+		if !ok || eb.Kind() != types.Uint8 {
+			return "", nil, fmt.Errorf("slice of %s not replayable", u.Elem())
+		}
+		lc, err := rb.intsOf([]Term{v.Sl.Len, v.Sl.Cap, v.Sl.Base})
+		if err != nil {
+			return "", nil, err
+		}
+		n, c := lc[0], lc[1]
+		if lc[2].Sign() == 0 {
+			return fmt.Sprintf("%s(nil)", rb.qual(T)), nil, nil
+		}
+		if n.Sign() < 0 || c.Cmp(big.NewInt(replayMaxLen)) > 0 || n.Cmp(c) > 0 {
+			return "", nil, fmt.Errorf("model slice len/cap %s/%s outside replayable range", n, c)
+		}
+		reg := sym("elem<uint8>@0")
+		if !vc.sc.declared[reg] {
+			// contents never read: any bytes do
+			return fmt.Sprintf("make(%s, %d, %d)", rb.qual(T), n.Int64(), c.Int64()), nil, nil
+		}
+		var ts []Term
+		for i := int64(0); i < n.Int64(); i++ {
+			ts = append(ts, sel(reg, v.Sl.Base, plus(v.Sl.Off, itoa(i))))
+		}
+		bs, err := rb.intsOf(ts)
+		if err != nil {
+			return "", nil, err
+		}
+		name := rb.fresh()
+		setup := []string{fmt.Sprintf("%s := make([]byte, %d, %d)", name, n.Int64(), c.Int64()), fmt.Sprintf("copy(%s, %s)", name, byteLit(bs))}
+		return fmt.Sprintf("%s(%s)", rb.qual(T), name), setup, nil
+	case *types.Pointer:
+		if v.S == "" {
+			return "", nil, fmt.Errorf("interior pointer parameter not replayable")
+		}
+		isNil, err := rb.intOf(v.S)
+		if err != nil {
+			return "", nil, err
+		}
+		if isNil.Sign() == 0 {
+			return fmt.Sprintf("(%s)(nil)", rb.qual(T)), nil, nil
+		}
+		s := structOf(u.Elem())
+		if s == nil {
+			return "", nil, fmt.Errorf("pointer to %s not replayable", u.Elem())
+		}
+		name := rb.fresh()
+		setup := []string{fmt.Sprintf("%s := new(%s)", name, rb.qual(u.Elem()))}
+		for i := 0; i < s.NumFields(); i++ {
+			f := s.Field(i)
+			fp := vc.fieldPtr(v.S, u.Elem(), i)
+			if fp.Loc == nil {
+				// nested struct by value: only if it has replayable fields; otherwise leave zero
+				continue
+			}
+			// only fields the VC actually read matter: undeclared regions are skipped
+			declared := false
+			for _, lf := range cellLeaves(f.Type()) {
+				if vc.sc.declared[sym(fp.Loc.Prefix+lf.suffix+"@0")] {
+					declared = true
+				}
+			}
+			if !declared {
+				continue
+			}
+			fv := vc.loadLocAt0(fp.Loc, f.Type())
+			e, su, err := rb.build(fv, f.Type(), depth+1)
+			if err != nil {
+				// fields of function / interface / map type stay zero
+				continue
+			}
+			setup = append(setup, su...)
+			setup = append(setup, fmt.Sprintf("%s.%s = %s", name, f.Name(), e))
+		}
+		_ = st
+		return name, setup, nil
+	case *types.Struct:
+		name := rb.fresh()
+		setup := []string{fmt.Sprintf("var %s %s", name, rb.qual(T))}
+		for i := 0; i < u.NumFields(); i++ {
+			if i >= len(v.Fs) {
+				break
+			}
+			e, su, err := rb.build(v.Fs[i], u.Field(i).Type(), depth+1)
+			if err != nil {
+				continue
+			}
+			setup = append(setup, su...)
+			setup = append(setup, fmt.Sprintf("%s.%s = %s", name, u.Field(i).Name(), e))
+		}
+		return name, setup, nil
+	case *types.Interface:
+		// byte sources: an in-memory reader over the model's remaining bytes
+		hasRead := false
+		for i := 0; i < u.NumMethods(); i++ {
+			if u.Method(i).Name() == "Read" || u.Method(i).Name() == "ReadByte" {
+				hasRead = true
+			}
+		}
+		if !hasRead {
+			return "", nil, fmt.Errorf("interface parameter %s not replayable", T)
+		}
+		for _, g := range []string{"ghost:rdata@0", "ghost:rlen@0", "ghost:rpos@0"} {
+			if !vc.sc.declared[sym(g)] {
+				return "bytes.NewReader(nil)", nil, nil
+			}
+		}
+		vc.sc.declareFun("src", []string{"Int"}, "Int")
+		s := app("src", v.S)
+		lp, err := rb.intsOf([]Term{sel(sym("ghost:rlen@0"), s), sel(sym("ghost:rpos@0"), s)})
+		if err != nil {
+			return "", nil, err
+		}
+		n := new(big.Int).Sub(lp[0], lp[1])
+		if n.Sign() < 0 || n.Cmp(big.NewInt(replayMaxLen)) > 0 {
+			return "", nil, fmt.Errorf("model stream length %s outside replayable range", n)
+		}
+		var ts []Term
+		for i := int64(0); i < n.Int64(); i++ {
+			ts = append(ts, sel(sym("ghost:rdata@0"), s, app("+", sel(sym("ghost:rpos@0"), s), itoa(i))))
+		}
+		bs, err := rb.intsOf(ts)
+		if err != nil {
+			return "", nil, err
+		}
+		return fmt.Sprintf("bytes.NewReader(%s)", byteLit(bs)), nil, nil
+	}
+	return "", nil, fmt.Errorf("parameter of type %s not replayable", T)
+}
+
+// loadLocAt0 reads a location from the initial heap versions.
+func (vc *VC) loadLocAt0(loc *Loc, T types.Type) Val {
+	st := &State{Heap: map[string]Term{}, Gh: map[string]Term{}}
+	return vc.loadLoc(st, loc, T)
+}
+
+// queryRelaxed: the obligation's query without quantified assertions (so that a
+// model can be produced) and without the final check-sat.
+func (o *Obligation) queryRelaxed() string {
+	q := o.query(false)
+	var b strings.Builder
+	for _, l := range strings.Split(q, "\n") {
+		if l == "(check-sat)" || strings.Contains(l, "(forall ") && !strings.HasPrefix(l, "(assert (not ") {
+			continue
+		}
+		b.WriteString(l)
+		b.WriteByte('\n')
+	}
+	return b.String()
+}
+
+func (eng *Engine) replayModel(prop string, o *Obligation, rep map[string]any) {
+	if o.FC == nil || o.VC == nil || !panicKinds[o.Kind] || o.Expect == "sat" {
+		return
+	}
+	fc := o.FC.root()
+	fn := fc.fn
+	if fn == nil || fn.Pkg == nil || fn.Parent() != nil {
+		rep["replay_skipped"] = "not a package-level function"
+		return
+	}
+	pi := eng.pkgs[fn.Pkg.Pkg.Path()]
+	if pi == nil || len(pi.GoFiles) == 0 {
+		return
+	}
+	dir := filepath.Join(replaysDir(), ".tmp")
+	os.MkdirAll(dir, 0o755)
+	rb := &replayBuilder{eng: eng, fc: fc, o: o, file: filepath.Join(dir, fmt.Sprintf("r%d", os.Getpid()))}
+	var setup []string
+	var args []string
+	for _, p := range fn.Params {
+		e, su, err := rb.build(fc.vals[p], p.Type(), 0)
+		if err != nil {
+			rep["replay_skipped"] = fmt.Sprintf("parameter %s: %v", p.Name(), err)
+			return
+		}
+		setup = append(setup, su...)
+		args = append(args, e)
+	}
+	call := ""
+	if fn.Signature.Recv() != nil {
+		call = fmt.Sprintf("(%s).%s(%s)", args[0], fn.Name(), strings.Join(args[1:], ", "))
+	} else {
+		call = fmt.Sprintf("%s(%s)", fn.Name(), strings.Join(args, ", "))
+	}
+	nres := fn.Signature.Results().Len()
+	lhs := ""
+	if nres > 0 {
+		lhs = strings.Repeat("_, ", nres-1) + "_ = "
+	}
+	needBytes := strings.Contains(strings.Join(args, " ")+strings.Join(setup, " "), "bytes.")
+	var src strings.Builder
+	fmt.Fprintf(&src, "package %s\n\nimport (\n\t\"testing\"\n", pi.Types.Name())
+	if needBytes {
+		src.WriteString("\t\"bytes\"\n")
+	}
+	for p := range rb.imports {
+		if p != "bytes" {
+			fmt.Fprintf(&src, "\t%q\n", p)
+		}
+	}
+	src.WriteString(")\n\n")
+	fmt.Fprintf(&src, "// generated by /verif (govc) from the solver's model for obligation\n// %s\nfunc TestVerifReplay(t *testing.T) {\n", o.Name)
+	src.WriteString("\tdefer func() {\n\t\tif r := recover(); r != nil {\n\t\t\tt.Fatalf(\"VERIF-REPLAY-PANIC: %v\", r)\n\t\t}\n\t}()\n")
+	for _, s := range setup {
+		src.WriteString("\t" + s + "\n")
+	}
+	fmt.Fprintf(&src, "\t%s%s\n}\n", lhs, call)
+	pkgDir := filepath.Dir(pi.GoFiles[0])
+	testFile := filepath.Join(dir, fmt.Sprintf("zz_replay_%d_test.go", os.Getpid()))
+	os.WriteFile(testFile, []byte(src.String()), 0o644)
+	defer os.Remove(testFile)
+	ov := map[string]any{"Replace": map[string]string{filepath.Join(pkgDir, "zz_verif_replay_test.go"): testFile}}
+	// a mutant under check is replayed against the mutant: the same overlay files apply
+	for k, v := range eng.overlayFiles {
+		ov["Replace"].(map[string]string)[k] = v
+	}
+	ovData, _ := json.Marshal(ov)
+	ovFile := testFile + ".overlay.json"
+	os.WriteFile(ovFile, ovData, 0o644)
+	defer os.Remove(ovFile)
+	cmd := exec.Command("go", "test", "-overlay", ovFile, "-vet=off", "-count=1", "-timeout", "60s", "-run", "^TestVerifReplay$", ".")
+	cmd.Dir = pkgDir
+	cmd.Env = append(os.Environ(), "GOFLAGS=")
+	done := make(chan struct{})
+	var out []byte
+	go func() { out, _ = cmd.CombinedOutput(); close(done) }()
+	select {
+	case <-done:
+	case <-time.After(120 * time.Second):
+		if cmd.Process != nil {
+			cmd.Process.Kill()
+		}
+		<-done
+	}
+	text := string(out)
+	rep["replay_test"] = map[string]any{"pkg_dir": pkgDir, "source": src.String()}
+	rep["replay_output"] = truncate(text, 6000)
+	if strings.Contains(text, "VERIF-REPLAY-PANIC") {
+		o.replayed = true
+		rep["replay_result"] = "the real function panics on the solver's input"
+	} else {
+		rep["replay_result"] = "the real function did not panic on this input (the model relies on something the replayer cannot build, or the obligation is not a panic)"
+	}
+	var _ *ssa.Function = fn
+}
